@@ -42,9 +42,12 @@ package storagearchive
 //@ func newUntarOptions() (r)
 //@   property C14
 //@   ensures r != nil
+// (ca-D2) defaults: no size limit, nothing stripped, no matcher
+//@   ensures defaults: r.maxFileSize == 0 && r.stripComponentCount == 0 && r.filePathMatcher == nil
 //@ func newUnzipOptions() (r)
 //@   property C14
 //@   ensures r != nil
+//@   ensures defaults: r.stripComponentCount == 0 && r.filePathMatcher == nil
 //
 // ---- C15: a failing sink is always reported
 //
@@ -53,45 +56,111 @@ package storagearchive
 //@   modifies ghost.fail, ghost.wfail, ghost.sinkPaths, ghost.sinkBuckets, ghost.lastPutOptions
 //@   ensures reported: ghost.fail && !old(ghost.fail) ==> retErr != nil
 //@   ensures write-reported: ghost.wfail && !old(ghost.wfail) ==> retErr != nil
+// (ca-D2) exactly one (plain) put, of exactly this path on exactly this bucket - and none when the entry cannot be opened
+//@   ensures exact-put {C13}: forall q string :: q in ghost.sinkPaths && !(q in old(ghost.sinkPaths)) ==> q == path
+//@   ensures exact-bucket {C13}: forall b ref :: b in ghost.sinkBuckets && !(b in old(ghost.sinkBuckets)) ==> b == writeBucket
+//@   ensures extracted-means-put: retErr == nil ==> path in ghost.sinkPaths && writeBucket in ghost.sinkBuckets
 //@   canary ensures retErr == nil
 //
 // Untar/Unzip: every path handed to CopyReader/copyZipFile is a valid relative path other than "." (C13; the assertion
 // is anchored on the full call text, so a call with another path argument makes the contract out of date), and a
 // failed copy ends the extraction with an error (C15).
 //@ func Untar(ctx, reader, writeBucket, options) (err)
-//@   property C13 C15
+//@   property C13 C14 C15
 //@   modifies heap, ghost.fail, ghost.wfail, ghost.sinkPaths, ghost.sinkBuckets, ghost.lastPutOptions
 //@   assert before "if err := storage.CopyReader(ctx, writeBucket, tarReader, path);" entry-confined {C13}: validRel(path) && path != "."
 //@   ensures write-reported: ghost.wfail && !old(ghost.wfail) ==> err != nil
 //@   loop 1 invariant ghost.wfail ==> old(ghost.wfail)
-//@   canary ensures err != nil
+// (ca-D2) C13 as a postcondition: EVERY path handed to a bucket during the extraction is a valid relative path other than
+// ".", and only the given bucket is written. Per entry (assertions at the one CopyReader call): the path is the
+// normalized entry name with the leading components stripped FIRST and the matcher asked about the STRIPPED path
+// ("the matcher will be applied after components are stripped"); only regular files are extracted; an entry larger
+// than the configured limit (0: no limit) or with a negative size ends the extraction before it is written.
+// An entry whose name is hostile (empty, absolute, escaping) never gets past the name check (assertion where the loop
+// goes on to the entry type check; the code ends the extraction with the error - merely skipping the entry would
+// satisfy C13 as well, so "aborts" is not claimed). The matcher is modelled as a deterministic predicate.
+//@   callback pure filePathMatcher
+//@   assert before "if err := storage.CopyReader(ctx, writeBucket, tarReader, path);" strip-then-match {C13}: path == first(normalpath.StripComponents(Normalize(tarHeader.Name), untarOptions.stripComponentCount)) && (untarOptions.filePathMatcher == nil || untarOptions.filePathMatcher(path))
+//@   assert before "if !ok || !tarHeader.FileInfo().Mode().IsRegular()" hostile-name-never-proceeds {C13}: tarHeader.Name != "" && validRel(Normalize(tarHeader.Name))
+//@   ensures paths-confined {C13}: forall q string :: q in ghost.sinkPaths && !(q in old(ghost.sinkPaths)) ==> validRel(q) && q != "."
+//@   ensures only-this-bucket {C13}: forall b ref :: b in ghost.sinkBuckets && !(b in old(ghost.sinkBuckets)) ==> b == writeBucket
+//@   ensures reported: ghost.fail && !old(ghost.fail) ==> err != nil
+//@   loop 1 invariant ghost.fail ==> old(ghost.fail)
+//@   loop 1 invariant forall q string :: q in ghost.sinkPaths && !(q in old(ghost.sinkPaths)) ==> validRel(q) && q != "."
+//@   loop 1 invariant forall b ref :: b in ghost.sinkBuckets && !(b in old(ghost.sinkBuckets)) ==> b == writeBucket
+//@   assert before "if err := storage.CopyReader(ctx, writeBucket, tarReader, path);" only-regular-files {C14}: tarHeader.FileInfo().Mode().IsRegular()
+//@   assert before "if err := storage.CopyReader(ctx, writeBucket, tarReader, path);" size-limit-enforced-before-writing: tarHeader.Size >= 0 && (untarOptions.maxFileSize == 0 || tarHeader.Size <= untarOptions.maxFileSize)
+//@   assert before "if isAppleExtendedAttributesFile(tarHeader.FileInfo())" negative-size-rejected: tarHeader.Size >= 0
+//@   canary ensures err == nil
 //
 //@ func Unzip(ctx, readerAt, size, writeBucket, options) (err)
-//@   property C13 C15
+//@   property C13 C14 C15
 //@   modifies heap, ghost.fail, ghost.wfail, ghost.sinkPaths, ghost.sinkBuckets, ghost.lastPutOptions
 //@   assert before "if err := copyZipFile(ctx, writeBucket, zipFile, path);" entry-confined {C13}: validRel(path) && path != "."
 //@   ensures reported: ghost.fail && !old(ghost.fail) ==> err != nil
 //@   ensures write-reported: ghost.wfail && !old(ghost.wfail) ==> err != nil
 //@   loop 1 invariant ghost.fail ==> old(ghost.fail)
 //@   loop 1 invariant ghost.wfail ==> old(ghost.wfail)
-//@   canary ensures err != nil
+// (ca-D2) as for Untar; an archive of unknown (negative) size is rejected and an empty one extracts nothing
+//@   callback pure filePathMatcher
+//@   assert before "if err := copyZipFile(ctx, writeBucket, zipFile, path);" strip-then-match {C13}: path == first(normalpath.StripComponents(Normalize(zipFile.Name), unzipOptions.stripComponentCount)) && (unzipOptions.filePathMatcher == nil || unzipOptions.filePathMatcher(path))
+//@   assert before "if isAppleExtendedAttributesFile(zipFile.FileInfo())" hostile-name-never-proceeds {C13}: zipFile.Name != "" && validRel(Normalize(zipFile.Name))
+//@   ensures paths-confined {C13}: forall q string :: q in ghost.sinkPaths && !(q in old(ghost.sinkPaths)) ==> validRel(q) && q != "."
+//@   ensures only-this-bucket {C13}: forall b ref :: b in ghost.sinkBuckets && !(b in old(ghost.sinkBuckets)) ==> b == writeBucket
+//@   ensures unknown-size-rejected: size < 0 ==> err != nil && ghost.sinkPaths == old(ghost.sinkPaths)
+//@   ensures empty-archive: size == 0 ==> err == nil && ghost.sinkPaths == old(ghost.sinkPaths)
+//@   loop 1 invariant forall q string :: q in ghost.sinkPaths && !(q in old(ghost.sinkPaths)) ==> validRel(q) && q != "."
+//@   loop 1 invariant forall b ref :: b in ghost.sinkBuckets && !(b in old(ghost.sinkBuckets)) ==> b == writeBucket
+// ("only regular files are extracted" cannot be asserted for Unzip: zipFile.FileInfo() is a method of the EMBEDDED
+// zip.FileHeader with a pointer receiver, and the engine gives &zipFile.FileHeader a fresh address at every call, so the
+// value tested by the code and the one named in a clause are unrelated symbols.)
+//@   canary ensures err == nil
 //
 // Tar/Zip: the per-object callback reports every failure it raises, and the deferred Close of the archive writer
 // is joined into the result.
 //@ func Tar(ctx, readBucket, writer) (retErr)
-//@   property C15
+//@   property C14 C15
 //@   modifies heap, ghost.fail, ghost.wfail, ghost.sinkPaths, ghost.sinkBuckets, ghost.lastPutOptions
 //@   ensures reported: ghost.fail && !old(ghost.fail) ==> retErr != nil
 //@   ensures write-reported: ghost.wfail && !old(ghost.wfail) ==> retErr != nil
 //@   closure 1 ensures entry-reports: ghost.fail && !old(ghost.fail) ==> err != nil
 //@   closure 1 ensures entry-reports-writes: ghost.wfail && !old(ghost.wfail) ==> err != nil
+// (ca-D2) the WHOLE bucket (prefix "") of exactly the given bucket is archived, no other bucket is touched
+//@   ensures whole-bucket {C14}: "" in ghost.sinkPaths
+//@   ensures only-this-bucket {C14}: forall b ref :: b in ghost.sinkBuckets && !(b in old(ghost.sinkBuckets)) ==> b == readBucket
 //@   canary ensures retErr == nil
 //
 //@ func Zip(ctx, readBucket, writer, compressed) (retErr)
-//@   property C15
+//@   property C13 C14 C15
 //@   modifies heap, ghost.fail, ghost.wfail, ghost.sinkPaths, ghost.sinkBuckets, ghost.lastPutOptions
 //@   ensures reported: ghost.fail && !old(ghost.fail) ==> retErr != nil
 //@   ensures write-reported: ghost.wfail && !old(ghost.wfail) ==> retErr != nil
 //@   closure 1 ensures entry-reports: ghost.fail && !old(ghost.fail) ==> err != nil
 //@   closure 1 ensures entry-reports-writes: ghost.wfail && !old(ghost.wfail) ==> err != nil
+// (ca-D2) as for Tar; every entry is named by the object's bucket path and stored / deflated as asked
+//@   ensures whole-bucket {C14}: "" in ghost.sinkPaths
+//@   ensures only-this-bucket {C14}: forall b ref :: b in ghost.sinkBuckets && !(b in old(ghost.sinkBuckets)) ==> b == readBucket
+//@   assert before "writer, err := zipWriter.CreateHeader(header)" entry-named-by-path {C13}: header.Name == readObject.Path() && header.Method == ite(compressed, zip.Deflate, zip.Store)
 //@   canary ensures retErr == nil
+//
+// ---- (ca-D2) the options: each one sets exactly its own field of the option record (closure 0 is the returned option)
+//@ func UntarWithMaxFileSize(maxFileSize) (r)
+//@   property C13 C14 C15
+//@   ensures r != nil
+//@   closure 0 ensures sets-own-field: untarOptions.maxFileSize == maxFileSize && untarOptions.stripComponentCount == old(untarOptions.stripComponentCount) && untarOptions.filePathMatcher == old(untarOptions.filePathMatcher)
+//@ func UntarWithStripComponentCount(stripComponentCount) (r)
+//@   property C13 C14 C15
+//@   ensures r != nil
+//@   closure 0 ensures sets-own-field: untarOptions.stripComponentCount == stripComponentCount && untarOptions.maxFileSize == old(untarOptions.maxFileSize) && untarOptions.filePathMatcher == old(untarOptions.filePathMatcher)
+//@ func UntarWithFilePathMatcher(filePathMatcher) (r)
+//@   property C13 C14 C15
+//@   ensures r != nil
+//@   closure 0 ensures sets-own-field: untarOptions.filePathMatcher == filePathMatcher && untarOptions.maxFileSize == old(untarOptions.maxFileSize) && untarOptions.stripComponentCount == old(untarOptions.stripComponentCount)
+//@ func UnzipWithStripComponentCount(stripComponentCount) (r)
+//@   property C13 C14 C15
+//@   ensures r != nil
+//@   closure 0 ensures sets-own-field: unzipOptions.stripComponentCount == stripComponentCount && unzipOptions.filePathMatcher == old(unzipOptions.filePathMatcher)
+//@ func UnzipWithFilePathMatcher(filePathMatcher) (r)
+//@   property C13 C14 C15
+//@   ensures r != nil
+//@   closure 0 ensures sets-own-field: unzipOptions.filePathMatcher == filePathMatcher && unzipOptions.stripComponentCount == old(unzipOptions.stripComponentCount)
